@@ -96,6 +96,7 @@ type Config struct {
 	DistrEpoch           string
 	CommunityTax         string
 	StakerNative         string // native balance of each staker/operator account
+	NumAVS               int    // funded accounts that act as AVS / task contracts (they call the AVS precompile themselves)
 	GenesisUndelegations []delegationtypes.UndelegationRecord
 }
 
@@ -134,7 +135,8 @@ type World struct {
 	Operators []AccountKey
 	ConsKeys  []ConsKey // genesis consensus keys of the first NumValidators operators
 	Stakers   []AccountKey
-	Other     AccountKey // an ordinary funded account without any role
+	Other     AccountKey   // an ordinary funded account without any role
+	AVSKeys   []AccountKey // accounts acting as AVS or task contracts
 	AssetIDs  []string
 	AvsAddr   string       // dogfood AVS address (lower-case hex string)
 	Feeders   []FeederInfo // active (generated) feeders, including resumed ones
@@ -210,6 +212,10 @@ func BuildWorld(cfg Config) (*World, error) {
 	}
 	for _, k := range w.Stakers {
 		addAcc(k)
+	}
+	for i := 0; i < cfg.NumAVS; i++ {
+		w.AVSKeys = append(w.AVSKeys, NewAccountKey(cfg.Seed, "avs", i))
+		addAcc(w.AVSKeys[i])
 	}
 	gs[authtypes.ModuleName] = cdc.MustMarshalJSON(authtypes.NewGenesisState(authtypes.DefaultParams(), genAccs))
 	gs[banktypes.ModuleName] = cdc.MustMarshalJSON(banktypes.NewGenesisState(
